@@ -71,6 +71,12 @@ CHECKS["C15"] = dict(
     text="~530k near-miss mutants per quick run, of which ~11k are accepted by the compiler and differ from their origin; each accepted one is re-checked for argument types, exact-once use, no overwrite, branch arity and alignment, merge agreement, return types with nothing left over and dup/drop legality. All 400+ unmutated corpus programs are the false-alarm control (a checker rejection there makes the run inconclusive).",
     note="Trusted: libfunc signatures from the program registry; my checker (oracle/sierra_check.rs) and its table of non-droppable / non-duplicable resource types. Reference expressions, ap tracking and gas are outside the checker (C17/C04 cover their consequences).")
 
+CHECKS["C18"] = dict(
+    level="exploration", design="DESIGN.md 3/C18",
+    technique="round-trip property-based testing: Sierra programs (corpus + compiled from generated programs, snippets and examples, with raw ids and debug names) through text, felt252 and versioned-JSON serialisation; CASM equality across id renderings",
+    text="~1,900 programs per quick run; per program: display -> parse -> display fixpoint after one round and isomorphism (canonical ids incl. user types), ContractClass felt round trip equality, VersionedProgram JSON equality (value, text, printed form), and byte-identical CASM for raw ids / debug names / canonical ids / parsed / felt-round-tripped versions.",
+    note="Trusted: CanonicalReplacer plus my user-type renaming as the isomorphism key; identity of ids ignores debug names by design of the code base.")
+
 PENDING_REASON = "check not built yet in this session (planned in DESIGN.md section 3; the property itself is amenable to the technique)"
 
 def main():
